@@ -109,6 +109,22 @@ CHECKS = {
             'the same or an incompatible shape only (numpy broadcasting to a larger shape not modelled); masks checked '
             'by the oracle only.',
             '10 (C08)'),
+    'C10': ('Lean 4 proof (PARTIAL) + differential correspondence + ground-truth end-to-end checks: the spectrum assembly '
+            '(convert_spectrum: bin counting, filling, last bins, flipping of decreasing axes) and the error conversion are '
+            'transcribed; proved: error = value x sigma/100 (exact arithmetic) and the orientation step of one axis (printed '
+            'decreasing is recognised; bins come out strictly increasing; every printed group keeps its own score)',
+            'error_eq_value_times_sigma, decreasing_iff, orient_edges, orient_cells, energy_bins_increasing, '
+            'energy_score_attached. NOT proved: that the executable model `convert` composes this step correctly over the '
+            'energy / time / mu / phi axes (a tie lemma convert = orient is not done), the pyparsing grammar, the mesh / Green '
+            'bands / IFP / keff / sensitivity builders, the Apollo3 reader and picker. These are decided on every run by (a) '
+            'bit-exact correspondence of `convert` with common.convert_spectrum + data_convertor.convert_data on generated '
+            'token lists (all four axes, both printing orders, gaps, ragged sub-spectra: same exception class), with an '
+            'independent ground-truth oracle (every printed row found under its own bounds); (b) the shipped listings with '
+            'every spectrum number re-rendered from fresh ground truth, parsed end to end; (c) the shipped Apollo3 HDF5 files '
+            'with every float dataset transformed, Reader vs Picker vs the transformed original.',
+            'Trusted: Lean kernel + standard axioms; grammar, transform layer, h5py exercised only; the error of a negative '
+            'score is negative (value x sigma%).',
+            '10 (C10)'),
     'C11': ('Lean 4 proof over a line-by-line transcription of the Tripoli-4 scanner (Scanner._get_collres, '
             'BatchResultScanner, side outputs, _add_time, Parser.__init__ outcome): the scanner is a fold, so editions closed '
             'in a prefix are closed identically in the complete listing; a cut line closes at most one more block; the '
